@@ -350,6 +350,7 @@ class FreeEnergy(InterpolatableFunction):
                 first_step=firstStep,
                 **scipyKwargs,
             )
+            fieldPrevious = np.array(phase0, dtype=float)
             while ode.status == "running":
                 try:
                     ode.step()
@@ -359,12 +360,22 @@ class FreeEnergy(InterpolatableFunction):
                 except np.linalg.LinAlgError:
                     # Singular Hessian: the minimum is disappearing, stop tracing here
                     break
+                # A re-minimisation that moves the point by more than the step itself
+                # (or a small fraction of the field/temperature scale) has left the
+                # basin of the traced minimum: the phase has ended.
+                fieldOde = np.array(ode.y, dtype=float)
+                jumpTol = max(
+                    float(np.linalg.norm(fieldOde - fieldPrevious)),
+                    np.sqrt(rTol) * max(*abs(phase0), T0),
+                )
                 if paranoid:
                     phaset, potentialEffT = self.effectivePotential.findLocalMinimum(
                         Fields((ode.y)),
                         ode.t,
                         tol=rTol,
                     )
+                    if np.linalg.norm(phaset[0] - fieldOde) > jumpTol:
+                        break
                     ode.y = phaset[0]
                 if spinodalEvent(ode.t, ode.y) <= 0:
                     break
@@ -380,7 +391,12 @@ class FreeEnergy(InterpolatableFunction):
                                 tol=extraTol,
                             )
                         )
+                        if np.linalg.norm(phaset[0] - fieldOde) > jumpTol:
+                            break
                         ode.y = phaset[0]
+                        # the corrected point must still be a minimum
+                        if spinodalEvent(ode.t, ode.y) <= 0:
+                            break
                     else:
                         # compute Veff
                         potentialEffT = np.asarray(
@@ -399,6 +415,7 @@ class FreeEnergy(InterpolatableFunction):
                 TList = np.append(TList, [ode.t], axis=0)
                 fieldList = np.append(fieldList, [ode.y], axis=0)
                 potentialEffList = np.append(potentialEffList, [potentialEffT], axis=0)
+                fieldPrevious = np.array(ode.y, dtype=float)
             if direction == 0:
                 # populating results array
                 TFullList = TList
